@@ -293,6 +293,32 @@ theorem IsTopEig.kyFan {A : Matrix n n K} (hA : Aᵀ = A) {V : Matrix n d K} {la
         linarith
     _ = ∑ j, lam j := Finset.sum_congr rfl fun j _ => by ring
 
+/-! ### Bottom-`d` (smallest eigenvalues): the mirror statements, for the alignment-cost properties C08–C10 -/
+
+omit [DecidableEq n] in
+theorem IsBottomEig.neg {A : Matrix n n K} {V : Matrix n d K} {lam : d → K} (h : IsBottomEig A V lam) :
+    IsTopEig (-A) V (fun j => -lam j) := by
+  refine ⟨⟨?_, h.ortho⟩, ?_⟩
+  · rw [Matrix.neg_mul, h.eig, ← Matrix.mul_neg]
+    congr 1
+    ext i j
+    simp only [Matrix.neg_apply, diagonal_apply]
+    split_ifs <;> simp
+  · intro x hx j
+    have := h.bottom x hx j
+    rw [neg_mulVec, dotProduct_neg]
+    linarith
+
+omit [DecidableEq n] in
+/-- **Ky Fan, minimum form, from the variational bottom-`d` property**: `Σ_j lam j ≤ tr (Zᵀ A Z)` for every block `Z` with
+    as many orthonormal columns — the returned eigenvectors minimise the quadratic cost. -/
+theorem IsBottomEig.kyFan {A : Matrix n n K} (hA : Aᵀ = A) {V : Matrix n d K} {lam : d → K} (h : IsBottomEig A V lam)
+    (Z : Matrix n d K) (hZ : Zᵀ * Z = 1) : ∑ j, lam j ≤ trace (Zᵀ * A * Z) := by
+  have hnA : (-A)ᵀ = -A := by rw [transpose_neg, hA]
+  have := h.neg.kyFan hnA Z hZ
+  simp only [Matrix.mul_neg, Matrix.neg_mul, trace_neg, Finset.sum_neg_distrib] at this
+  linarith
+
 /-! ### The variational property is what "the `d` largest eigenpairs of a full eigensystem" means -/
 
 /-- selecting the columns `e : d ↪ n` of a full eigensystem `(U, mu)` whose eigenvalues dominate all the others gives a
